@@ -62,6 +62,17 @@ void X__ZNSt18condition_variable4waitERSt11unique_lockISt5mutexE(u8 *cv, u8 *lk)
   u8 w = IN.wake[nwake < 4 ? nwake : 3] & 3; nwake++;
   u8 *c = CUR; CUR = 0; vf_ctrl_set_state(c, w); CUR = c;            /* while waiting, other threads may have changed the state arbitrarily */
 }
+/* timed waits (wait_for / wait_until): the same havoc, and the time-out may have fired */
+u32 X_pthread_cond_clockwait(u8 *cv, u8 *m, u32 clk, u8 *ts)
+{
+  (void)clk; (void)ts;
+  CHECK(held == 1 && m == vf_ctrl_mutex(CUR), "waits with this buffer's mutex held");
+  lg(E_WAIT, cv == vf_ctrl_cv_ready(CUR) ? 1 : cv == vf_ctrl_cv_update(CUR) ? 2 : 0, 0);
+  u8 w = IN.wake[nwake < 4 ? nwake : 3] & 3; nwake++;
+  u8 *c = CUR; CUR = 0; vf_ctrl_set_state(c, w); CUR = c;
+  return (IN.wake[nwake < 4 ? nwake : 3] & 4) ? 110u : 0u;
+}
+u32 X_pthread_cond_timedwait(u8 *cv, u8 *m, u8 *ts) { return X_pthread_cond_clockwait(cv, m, 0, ts); }
 void X__ZNSt18condition_variableC1Ev(u8 *cv) {}
 void X__ZNSt18condition_variableD1Ev(u8 *cv) {}
 void harness(void)
@@ -164,6 +175,8 @@ void X__ZNSt18condition_variableC1Ev(u8 *cv) {}
 void X__ZNSt18condition_variableD1Ev(u8 *cv) {}
 void X__ZNSt18condition_variable10notify_allEv(u8 *cv) { CHECK(0, "skeleton notifies only through its leaves"); }
 void X__ZNSt18condition_variable4waitERSt11unique_lockISt5mutexE(u8 *cv, u8 *lk) { CHECK(0, "skeleton waits only through its leaves"); }
+u32 X_pthread_cond_clockwait(u8 *cv, u8 *m, u32 clk, u8 *ts) { CHECK(0, "skeleton waits only through its leaves"); return 0; }
+u32 X_pthread_cond_timedwait(u8 *cv, u8 *m, u8 *ts) { CHECK(0, "skeleton waits only through its leaves"); return 0; }
 void rs_access(u8 *p, u64 n, int w) {}
 void harness(void)
 {
